@@ -55,8 +55,7 @@ def bic_family(rep, tier, enforced):
     rng = random.Random(common.seed() * 7003 + 16)
     jobs = [(n, rng.randint(1, 4), rng.randint(2, 40), rng.randrange(1 << 30))
             for n in ([1, 2, 5, 12, 40, 80, 120] * (2 if tier == "quick" else 30))]
-    with mp.get_context("fork").Pool(common.NCPU) as pool:
-        recs = pool.map(drv_metrics.bic_job, jobs)
+    recs = common.pmap_chunked(drv_metrics.bic_job, jobs, chunk=4)
     return validate(rep, recs, enforced, "bic")
 
 
@@ -65,6 +64,13 @@ def ch_family(rep, tier, enforced):
     jobs = [(rng.randint(3, 6), rng.randint(1, 3), 2 + (i % 2), rng.randrange(1 << 30))
             for i in range(60 if tier == "quick" else 1500)]
     jobs = [j for j in jobs if j[0] > j[2]]
-    with mp.get_context("fork").Pool(common.NCPU) as pool:
-        recs = pool.map(drv_metrics.ch_job, jobs)
+    recs = common.pmap_chunked(drv_metrics.ch_job, jobs, chunk=8)
     return validate(rep, recs, enforced, "ch")
+
+
+def floor_family(rep, tier, enforced):
+    rng = random.Random(common.seed() * 7007 + 3)
+    jobs = [(n, eps, how, rng.randrange(1 << 30)) for n in (1, 2, 3, 4) for eps in (0, 1, 2, 3)
+            for how in ("copy", "inplace", "reconstruct") for _ in range(2 if tier == "quick" else 40)]
+    recs = common.pmap_chunked(drv_metrics.floor_job, jobs, chunk=8)
+    return validate(rep, recs, enforced, "floor")
